@@ -180,6 +180,20 @@ func Gen(t *rapid.T, p Profile) Case {
 		case "maint":
 			op.M = eng.GenMaint(t)
 			op.M.Kind = rapid.SampledFrom(maintKinds).Draw(t, "mk")
+			if op.M.Kind == "rotate-async" && rapid.Bool().Draw(t, "flushBurst") {
+				// several sealed memtables queue up behind a running flush: write, seal, write, seal, ...
+				for b := 0; b < 3; b++ {
+					w := Op{K: "set", Ws: []W{genW(t, c, sizes)}}
+					if c.Mode == "txn" {
+						w.K = "txn"
+						w.Ws[0].CF = 0
+					}
+					if c.WriteOnce {
+						break
+					}
+					c.Ops = append(c.Ops, w, Op{K: "maint", M: eng.Maint{Kind: "rotate-async"}})
+				}
+			}
 		}
 		c.Ops = append(c.Ops, op)
 	}
